@@ -19,7 +19,7 @@ import numpy as np
 from .. import core, sxvm
 
 LEVEL = "exploration"
-RULE = ("n in {1,2,3} (thorough 4), m in {1,2}; W lower triangular with off-diagonal in {-1,0,2}, diagonal in {1,3} (all); F entries in {-1,0,1} "
+RULE = ("n in {1,2,3}, m in {1,2} on full lattices + n in {4,5,6} (thorough 7,8), m in {1,2,3} on designed families (6 factors x 1+2n^2+4 F x 4 Q; single-entry / dense H); W lower triangular with off-diagonal in {-1,0,2}, diagonal in {1,3} (all); F entries in {-1,0,1} "
         "(n<=2 all, n=3 a deterministic covering family); Q = A A^T for A in a small integer set incl. 0 and singular; H in {-1,0,1}^(m x n) all; "
         "SPD = B B^T + I; RK4 fields cubic-in-time, linear, rotation; h in {1/1000,1/10,1,-1/2}. non-trivial = not all-zero F/Q/H; distinct by input tuple")
 ASSUMPTIONS = ["Python Fraction / mpmath arithmetic is exact / 60 digits; the interpreted program is the real instruction list (bitwise conformance-gated in float)",
@@ -27,7 +27,7 @@ ASSUMPTIONS = ["Python Fraction / mpmath arithmetic is exact / 60 digits; the in
 
 
 def bounds(tier):
-    return dict(n_max=4 if tier == "thorough" else 3)
+    return dict(n_max=8 if tier == "thorough" else 6, n_full_lattice=3)
 
 
 def _util():
@@ -113,6 +113,19 @@ def fn_fact(kind, n):
     return _F[k]
 
 
+def W_family(n):
+    """a handful of lower-triangular factors for the larger dimensions (the estimator's own state has n = 6): diagonal, dense, first column
+    dense, last row dense, banded"""
+    idx = lower_idx(n)
+    fams = [lambda r, c: 1 if r == c else 0,
+            lambda r, c: (1 + 2 * (r % 2)) if r == c else 0,
+            lambda r, c: (1 + 2 * (r % 2)) if r == c else ((2 * r + c) % 3) - 1,
+            lambda r, c: 3 if r == c else (2 if c == 0 else 0),
+            lambda r, c: 1 if r == c else (-1 if r == n - 1 else 0),
+            lambda r, c: (1 + 2 * (c % 2)) if r == c else (2 if r == c + 1 else 0)]
+    return [[fn(r, c) for r, c in idx] for fn in fams]
+
+
 def W_lattice(n):
     idx = lower_idx(n)
     choices = [([1, 3] if r == c else [-1, 0, 2]) for r, c in idx]
@@ -159,7 +172,7 @@ def explore_predict(case):
         res.fail(site="util.sqrt_covariance_predict", clause="operation_raises", cls=type(ex).__name__, detail=dict(n=n, msg=str(ex)[:200]), sub="predict", case=case)
         return res
     prog = sxvm.compile_fn(f)
-    cases = list(itertools.product(W_lattice(n), F_lattice(n, tier), range(len(Q_lattice(n)))))[part::nparts]
+    cases = list(itertools.product(W_family(n) if case.get("large") else W_lattice(n), F_lattice(n, tier), range(len(Q_lattice(n)))))[part::nparts]
     Qs = Q_lattice(n)
     for Wv, Fv, qi in cases:
         res.count("evaluations")
@@ -197,7 +210,7 @@ def explore_predict(case):
             res.fail(site="util.sqrt_covariance_predict", clause="double_matches_exact", cls="n=%d" % n,
                      detail=dict(W=Wv, F=Fv, Q=Qs[qi], err=err), sub="predict", case=case)
     # the same identity when W is declared structurally diagonal (the usual initial factor diag(sigma))
-    if part == 0 and n >= 2:
+    if part == 0 and n >= 2 and not case.get("large"):
         try:
             fd = fn_predict_diag(n)
             pd_ = sxvm.compile_fn(fd)
@@ -238,9 +251,18 @@ def explore_correct(case):
         return res
     prog = sxvm.compile_fn(f)
     mp = mpmath.mp
-    Hs = [list(v) for v in itertools.product([-1, 0, 1], repeat=m * n)]
+    Hs = [list(v) for v in itertools.product([-1, 0, 1], repeat=m * n)] if not case.get("large") else []
     Rs_l = [list(v) for v in itertools.product(*[([1, 2] if r == c else [0, 1]) for r, c in lower_idx(m)])]
-    Ws = W_lattice(n)
+    Ws = W_lattice(n) if not case.get("large") else W_family(n)
+    if case.get("large"):
+        # every single-entry H, the all-ones H, two patterned ones; measurement factors: identity and one dense
+        Hs = []
+        for i in range(m * n):
+            v = [0] * (m * n)
+            v[i] = 1 if i % 2 == 0 else -1
+            Hs.append(v)
+        Hs += [[1] * (m * n), [((i * 2 + 1) % 3) - 1 for i in range(m * n)], [((i * i + 2) % 3) - 1 for i in range(m * n)]]
+        Rs_l = [Rs_l[0], Rs_l[-1]]
     if n == 3:
         Rs_l = Rs_l if tier == "thorough" else Rs_l[::3]
         Ws = Ws[::5] if tier != "thorough" else Ws
@@ -565,6 +587,8 @@ class _SubP:
         out = []
         for n, parts in ((1, 1), (2, 2), (3, 16)):
             out += [dict(n=n, tier=tier, seed=seed, part=p, nparts=parts) for p in range(parts)]
+        for n in (4, 5, 6) + ((7, 8) if tier == "thorough" else ()):
+            out += [dict(n=n, tier=tier, seed=seed, part=p, nparts=6, large=True) for p in range(6)]
         return out
 
     def run(self, case):
@@ -580,6 +604,9 @@ class _SubC:
             for m in (1, 2):
                 parts = 8 if n == 3 else 2
                 out += [dict(n=n, m=m, tier=tier, seed=seed, part=p, nparts=parts) for p in range(parts)]
+        # larger dimensions (the estimator runs these routines with n = 6, m = 1 and 2), small designed families
+        for n, m in ((4, 1), (4, 3), (5, 2), (6, 1), (6, 2), (6, 3)) + (((5, 1), (5, 3), (7, 2)) if tier == "thorough" else ()):
+            out += [dict(n=n, m=m, tier=tier, seed=seed, part=p, nparts=4, large=True) for p in range(4)]
         return out
 
     def run(self, case):
